@@ -2,6 +2,7 @@ package props
 
 import (
 	"encoding/json"
+	"errors"
 	"fmt"
 	"io"
 	"time"
@@ -9,6 +10,7 @@ import (
 	"github.com/gorilla/websocket"
 	"pgregory.net/rapid"
 
+	"verifharness/wsref"
 	"verifharness/xport"
 )
 
@@ -127,10 +129,21 @@ type wexec struct {
 	open      io.WriteCloser
 	openMsg   int
 	stopOnErr bool
+	server    bool
+	// gate, if set, is called before every API call (interleaved execution);
+	// after is called after every API call with the trace entry.
+	gate  func()
+	after func(cl *Call)
+	// holding is the executor's expectation of whether the connection holds
+	// a write buffer right now (an open message writer that has not failed).
+	holding bool
 	ctlDl     *time.Time // deadline argument of the WriteControl about to be called
 }
 
 func (x *wexec) call(step, part int, api string, bad bool, msg int, f func() error) error {
+	if x.gate != nil {
+		x.gate()
+	}
 	wb, ob, wo := len(x.tr.Wrote), len(x.tr.Log), x.tr.WriteOps()
 	dl := x.deadline
 	if x.ctlDl != nil {
@@ -141,6 +154,19 @@ func (x *wexec) call(step, part int, api string, bad bool, msg int, f func() err
 	x.tw.Calls = append(x.tw.Calls, Call{Step: step, Part: part, API: api, Err: err, Bad: bad, WroteBefore: wb, WroteAfter: len(x.tr.Wrote), OpsBefore: ob, OpsAfter: len(x.tr.Log), WOpsBefore: wo, WOpsAfter: x.tr.WriteOps(), Msg: msg, Deadline: dl})
 	if msg >= 0 && err != nil {
 		x.tw.Sent[msg].Reported = false
+	}
+	switch api {
+	case "NextWriter":
+		x.holding = err == nil
+	case "Write", "WriteString", "ReadFrom", "Copy":
+		if err != nil {
+			x.holding = false
+		}
+	case "Close", "WriteMessage", "WriteJSON":
+		x.holding = false
+	}
+	if x.after != nil {
+		x.after(&x.tw.Calls[len(x.tw.Calls)-1])
 	}
 	return err
 }
@@ -175,8 +201,23 @@ func (x *wexec) ctlDeadline(n int) time.Time {
 // was negotiated for c (needed only to predict which messages may be
 // compressed).  The executor never stops on errors unless stopOnErr is set.
 func RunWrite(c *websocket.Conn, tr *xport.ScriptConn, steps []WStep, compNeg bool) *WTrace {
+	return RunWriteRole(c, tr, steps, compNeg, false)
+}
+
+// RunWriteRole is RunWrite for programs containing peer-triggered closes, which
+// need to know the connection's role to mask the injected frames.
+func RunWriteRole(c *websocket.Conn, tr *xport.ScriptConn, steps []WStep, compNeg, server bool) *WTrace {
+	return RunWriteHooked(c, tr, steps, compNeg, server, nil, nil)
+}
+
+// RunWriteHooked runs a program with a gate before and a hook after every API
+// call; hook receives the executor's expectation "holds a write buffer".
+func RunWriteHooked(c *websocket.Conn, tr *xport.ScriptConn, steps []WStep, compNeg, server bool, gate func(), after func(cl *Call, holding bool)) *WTrace {
 	tw := &WTrace{Base: time.Now()}
-	x := &wexec{c: c, tr: tr, tw: tw, compNeg: compNeg, compOn: true, level: 1}
+	x := &wexec{c: c, tr: tr, tw: tw, compNeg: compNeg, compOn: true, level: 1, server: server, gate: gate}
+	if after != nil {
+		x.after = func(cl *Call) { after(cl, x.holding) }
+	}
 	for si, s := range steps {
 		x.step(si, s)
 	}
@@ -256,6 +297,8 @@ func (x *wexec) step(si int, s WStep) {
 		x.deadline = t
 	case "writer":
 		x.writer(si, s, false)
+	case "peerclose", "peerviolation", "peerbig":
+		x.peer(si, 0, s.Op, s.Level)
 	case "bad":
 		x.bad(si, s)
 	default:
@@ -280,6 +323,10 @@ func (x *wexec) writer(si int, s WStep, bad bool) {
 	}
 	rest := data
 	for pi, p := range s.Parts {
+		if p.API == "peerclose" || p.API == "peerviolation" || p.API == "peerbig" {
+			x.peer(si, pi+1, p.API, p.MT)
+			continue
+		}
 		if p.API == "control" {
 			cd := p.Data.Bytes()
 			cm := x.newSent(p.MT, cd, si, false)
@@ -352,6 +399,38 @@ func (x *wexec) writePart(si, pi int, p WPart, w io.WriteCloser, chunk []byte, b
 			return e
 		})
 	}
+}
+
+// peer makes the read side of the connection send a close frame on its own:
+// a close frame from the peer (default handler echoes it), a protocol
+// violation (1002) or a read-limit breach (1009).  code is the close code
+// for peerclose.
+func (x *wexec) peer(si, pi int, kind string, code int) {
+	masked := x.server // peers of a server mask
+	f := wsref.Frame{Fin: true, Masked: masked, Key: [4]byte{9, 8, 7, 6}}
+	switch kind {
+	case "peerclose":
+		f.Opcode = wsref.OpClose
+		if code > 0 {
+			f.Payload = wsref.CloseBody(code, "bye")
+		}
+	case "peerviolation":
+		f.Opcode = wsref.OpText
+		f.Rsv2 = true
+		f.Payload = []byte("x")
+	default:
+		x.c.SetReadLimit(4)
+		f.Opcode = wsref.OpBinary
+		f.Payload = []byte("0123456789")
+	}
+	x.tr.AppendInput(wsref.AppendFrame(nil, f))
+	x.call(si, pi, "NextReader:"+kind, false, -1, func() error {
+		_, _, err := x.c.NextReader()
+		if err == nil {
+			return errors.New("harness: NextReader succeeded on a closing input")
+		}
+		return nil
+	})
 }
 
 // bad executes an intentionally invalid request.  The request as a whole must
